@@ -258,6 +258,16 @@ func (b *wb) finish(name string, s *world.Signers, rng *rand.Rand) (*WorldFile, 
 			pstr = append(pstr, it.Ref)
 		}
 	}
+	for _, nth := range []int{4, 5} { // in the fixed worlds: the claim-less and the deleted permanode
+		k := 0
+		for _, it := range wf.Items {
+			if it.Kind == "permanode" {
+				if k++; k == nth {
+					pstr = append(pstr, it.Ref)
+				}
+			}
+		}
+	}
 	// the last permanode and the last dir too (deleted / nested ones tend to be late)
 	for _, kind := range []string{"permanode", "dir", "file"} {
 		for i := len(wf.Items) - 1; i >= 0; i-- {
@@ -290,7 +300,7 @@ func (b *wb) finish(name string, s *world.Signers, rng *rand.Rand) (*WorldFile, 
 		if it.Kind == "dir" || it.Kind == "file" {
 			pstr = append(pstr, it.Ref[:len("sha224-")+3])
 		}
-		if len(pstr) > 14 {
+		if len(pstr) > 16 {
 			break
 		}
 	}
@@ -376,7 +386,7 @@ func (wf *WorldFile) prefixOfItem(id int, exact bool) int {
 			}
 		}
 	}
-	return 0
+	panic(fmt.Sprintf("no prefix (exact=%v) for item %d", exact, id))
 }
 
 func pnAttr(attr string, vid int) []Node { return []Node{{K: "pn", S: attr, V: vid}} }
